@@ -228,4 +228,25 @@ struct Pool {
     }
 };
 
+// Runs the whole check body in a fork()ed child so that an abort()/assert/crash inside the code under test (outside
+// any pool worker) is reported as a violation instead of killing the harness silently.
+inline int guarded(const std::function<int()>& body, const std::string& what)
+{
+    if (!vx::ctx().replay.empty()) return body();
+    fflush(stdout);
+    pid_t p = fork();
+    if (p < 0) return body();
+    if (p == 0) {
+        int rc = body();
+        fflush(stdout);
+        _exit(rc);
+    }
+    int st = 0;
+    while (waitpid(p, &st, 0) < 0 && errno == EINTR) {}
+    if (WIFEXITED(st)) return WEXITSTATUS(st);
+    vx::violation("checking-process-died", "the checking process was killed by signal " + std::to_string(WTERMSIG(st)) + " (abort/assert/crash inside the code under test): " + what, what);
+    vx::ev().exhaustive = false;
+    return vx::finish();
+}
+
 } // namespace fp
